@@ -1,4 +1,462 @@
-//! C07 monitor (not written yet).
-pub fn run(_ctx: &crate::ctx::Ctx, report: &mut vcore::Report) {
-    report.notes.push("stub".into());
+//! C07 – parameter values cannot alter the request URI structure and decode back exactly.
+//!
+//! Observation points: the URI string a client hands to the transport (UriBuilder directly,
+//! generated clients, macro clients) and the values the real server-side decoders return for it.
+//! Oracle: an independent RFC 3986 splitter + percent decoder (vcore::models), never `http::Uri`.
+use crate::ctx::{guarded, Ctx};
+use crate::gen::sink::*;
+use crate::hand;
+use crate::svc::*;
+use conjure_http::client::{AsyncService, Service};
+use conjure_http::private::UriBuilder;
+use conjure_http::server::conjure::{FromPlainDecoder, FromPlainSeqDecoder};
+use conjure_http::server::ConjureRuntime;
+use conjure_http::PathParams;
+use conjure_object::ToPlain;
+use labrt::{block_on, AsyncLoopback, Loopback};
+use serde_json::json;
+use std::sync::Arc;
+use vcore::models::{pct_decode, split_uri};
+use vcore::rng::fnv;
+use vcore::text::*;
+use vcore::{Report, Rng};
+
+pub const KNOWN_TOO_LONG: &str = "builder:panic:InvalidUri(TooLong):rendered-length>65534";
+
+#[derive(Clone, Debug)]
+enum Seg {
+    Lit(String),
+    Param(String),
+}
+
+/// Expected shape of a URI: path segments in order and (key, value) query pairs in order.
+#[derive(Clone, Debug)]
+struct Shape {
+    segs: Vec<Seg>,
+    query: Vec<(String, String)>,
+}
+
+fn char_class(s: &str) -> String {
+    let mut f = String::new();
+    for (c, pat) in [('%', "%"), ('/', "/"), ('+', "+"), ('&', "&"), ('#', "#"), ('?', "?"), ('=', "="), (' ', " "), (';', ";"), ('.', ".."), ('\\', "\\")] {
+        if s.contains(pat) {
+            f.push(c);
+        }
+    }
+    if s.is_empty() {
+        f.push('e');
+    }
+    if s.bytes().any(|b| b < 0x20 || b == 0x7f) {
+        f.push('c');
+    }
+    if !s.is_ascii() {
+        f.push('U');
+    }
+    f
+}
+
+/// Checks the rendered URI against the expected shape. Returns the raw (still encoded) parameter
+/// segments and query values for the server-side half.
+fn check_shape(uri: &str, shape: &Shape) -> Result<(Vec<String>, Vec<(String, String)>), (String, String)> {
+    let sp = split_uri(uri).map_err(|e| ("not-a-valid-uri".to_string(), e))?;
+    if sp.segments.len() != shape.segs.len() {
+        return Err(("segment-count".into(), format!("{} segments, template has {}", sp.segments.len(), shape.segs.len())));
+    }
+    let mut raw_params = vec![];
+    for (got, want) in sp.segments.iter().zip(&shape.segs) {
+        let dec = pct_decode(got).ok_or(("bad-escape-in-path".to_string(), got.to_string()))?;
+        match want {
+            Seg::Lit(l) => {
+                if dec != *l {
+                    return Err(("literal-segment-altered".into(), format!("{:?} vs {:?}", dec, l)));
+                }
+            }
+            Seg::Param(v) => {
+                if dec != *v {
+                    return Err(("path-value-altered".into(), format!("{:?} decodes to {:?}, value {:?}", got, dec, v)));
+                }
+                raw_params.push(got.to_string());
+            }
+        }
+    }
+    let pairs = sp.query.unwrap_or_default();
+    if pairs.len() != shape.query.len() {
+        return Err(("query-pair-count".into(), format!("{} pairs, {} values supplied", pairs.len(), shape.query.len())));
+    }
+    let mut raw_q = vec![];
+    for ((k, v), (wk, wv)) in pairs.iter().zip(&shape.query) {
+        let dk = pct_decode(k).ok_or(("bad-escape-in-query".to_string(), k.to_string()))?;
+        let v = v.ok_or(("query-pair-without-equals".to_string(), k.to_string()))?;
+        let dv = pct_decode(v).ok_or(("bad-escape-in-query".to_string(), v.to_string()))?;
+        if dk != *wk {
+            return Err(("query-key-altered".into(), format!("{:?} vs {:?}", dk, wk)));
+        }
+        if v.contains('+') {
+            return Err(("raw-plus-in-query-value".into(), v.to_string()));
+        }
+        if dv != *wv {
+            return Err(("query-value-altered".into(), format!("{:?} decodes to {:?}, value {:?}", v, dv, wv)));
+        }
+        raw_q.push((wk.clone(), v.to_string()));
+    }
+    Ok((raw_params, raw_q))
+}
+
+const KEYS: &[&str] = &["a", "key", "q1", "some-key", "k_2", "Z"];
+const LITS: &[&str] = &["api", "v1", "sink", "a.b", "x-y_z", "0"];
+
+struct Built {
+    shape: Shape,
+    /// parameter names in order (p0, p1, …)
+    names: Vec<String>,
+    result: Result<String, String>,
+}
+
+fn build(shape_ops: &[(u8, String, String)]) -> Built {
+    // ops: (0 literal, text, _) | (1 path param, value, _) | (2 query, key, value)
+    let mut shape = Shape { segs: vec![], query: vec![] };
+    let mut names = vec![];
+    for (op, a, b) in shape_ops {
+        match op {
+            0 => {
+                for part in a.split('/').filter(|p| !p.is_empty()) {
+                    shape.segs.push(Seg::Lit(part.to_string()));
+                }
+            }
+            1 => {
+                names.push(format!("p{}", names.len()));
+                shape.segs.push(Seg::Param(a.clone()));
+            }
+            _ => shape.query.push((a.clone(), b.clone())),
+        }
+    }
+    let ops = shape_ops.to_vec();
+    let result = guarded(move || {
+        let mut b = UriBuilder::new();
+        for (op, a, v) in &ops {
+            match op {
+                0 => b.push_literal(a),
+                1 => b.push_path_parameter(&a.as_str()),
+                _ => b.push_query_parameter(a, &v.as_str()),
+            }
+        }
+        b.build().to_string()
+    });
+    Built { shape, names, result }
+}
+
+/// Server half: the real decoders must give the original values back for the raw pieces.
+fn server_decode(uri: &str, names: &[String], raw_params: &[String], shape: &Shape) -> Result<(), (String, String)> {
+    let runtime = ConjureRuntime::new();
+    let parsed: http::Uri = uri.parse().map_err(|e| ("http-uri-reparse-failed".to_string(), format!("{}", e)))?;
+    let mut req = http::Request::new(());
+    *req.uri_mut() = parsed;
+    let mut pp = PathParams::new();
+    for (n, raw) in names.iter().zip(raw_params) {
+        pp.insert(n.clone(), raw.clone());
+    }
+    req.extensions_mut().insert(pp);
+    let (parts, _) = req.into_parts();
+    let wanted: Vec<&String> = shape.segs.iter().filter_map(|s| if let Seg::Param(v) = s { Some(v) } else { None }).collect();
+    for (n, want) in names.iter().zip(wanted) {
+        let got = guarded(|| conjure_http::private::path_param::<String, FromPlainDecoder>(&runtime, &parts, n, n))
+            .map_err(|p| ("server-path-decode-panic".to_string(), p))?
+            .map_err(|e| ("server-path-decode-error".to_string(), format!("{:?}", e)))?;
+        if got != **want {
+            return Err(("server-path-value-differs".into(), format!("{:?} vs {:?}", got, want)));
+        }
+    }
+    let q = guarded(|| {
+        let q = conjure_http::private::parse_query_params(&parts);
+        let mut keys: Vec<&String> = shape.query.iter().map(|(k, _)| k).collect();
+        keys.sort();
+        keys.dedup();
+        let mut out = vec![];
+        for k in keys {
+            let got = conjure_http::private::query_param::<Vec<String>, FromPlainSeqDecoder<String>>(&runtime, &q, k, k);
+            out.push((k.clone(), got));
+        }
+        out
+    })
+    .map_err(|p| ("server-query-decode-panic".to_string(), p))?;
+    for (k, got) in q {
+        let want: Vec<&String> = shape.query.iter().filter(|(kk, _)| *kk == k).map(|(_, v)| v).collect();
+        match got {
+            Err(e) => return Err(("server-query-decode-error".into(), format!("{:?}", e))),
+            Ok(got) => {
+                if got.iter().collect::<Vec<_>>() != want {
+                    return Err(("server-query-values-differ".into(), format!("{:?} vs {:?}", got, want)));
+                }
+            }
+        }
+    }
+    Ok(())
+}
+
+fn judge_built(rep: &mut Report, sub: &str, seed: u64, ops: &[(u8, String, String)], sig_extra: &str) {
+    let b = build(ops);
+    let values: Vec<&String> = ops.iter().filter(|o| o.0 != 0).map(|o| if o.0 == 1 { &o.1 } else { &o.2 }).collect();
+    let classes: Vec<String> = values.iter().map(|v| char_class(v)).collect();
+    let raw_len: usize = ops.iter().map(|o| o.1.len() + o.2.len() + 2).sum();
+    rep.evaluations += 1;
+    rep.distinct.insert(fnv(&format!("{}|{}|{}", sub, sig_extra, classes.join(","))));
+    let show = |s: &String| if s.len() > 80 { format!("{}… ({} bytes)", s.chars().take(60).collect::<String>(), s.len()) } else { s.clone() };
+    let detail = |what: &str, info: String| json!({"ops": ops.iter().map(|o| json!([o.0, show(&o.1), show(&o.2)])).collect::<Vec<_>>(), "what": what, "info": info});
+    match &b.result {
+        Err(p) => {
+            if p.contains("TooLong") && raw_len > 65_534 {
+                rep.cell("builder/panic-too-long(known)");
+                rep.violation(sub, seed, KNOWN_TOO_LONG, detail("panic", p.clone()));
+            } else {
+                rep.violation(sub, seed, "builder:panic", detail("panic", p.clone()));
+            }
+        }
+        Ok(uri) => {
+            rep.cell(&format!("{}/built", sub));
+            match check_shape(uri, &b.shape) {
+                Err((what, info)) => rep.violation(sub, seed, format!("builder:{}", what), detail(&what, format!("{} in {}", info, show(uri)))),
+                Ok((raw_params, _)) => {
+                    if let Err((what, info)) = server_decode(uri, &b.names, &raw_params, &b.shape) {
+                        rep.violation(sub, seed, format!("roundtrip:{}", what), detail(&what, format!("{} in {}", info, show(uri))));
+                    }
+                }
+            }
+        }
+    }
+}
+
+fn random_ops(r: &mut Rng, val: &mut dyn FnMut(&mut Rng) -> String) -> Vec<(u8, String, String)> {
+    let mut ops = vec![];
+    let nseg = 1 + r.below(5);
+    let mut need_lit = true;
+    for _ in 0..nseg {
+        if need_lit || r.bool() {
+            let n = 1 + r.below(2);
+            let lit: String = (0..n).map(|_| format!("/{}", r.pick(LITS))).collect();
+            ops.push((0, lit, String::new()));
+            need_lit = false;
+        } else {
+            ops.push((1, val(r), String::new()));
+        }
+    }
+    for _ in 0..r.below(4) {
+        ops.push((1, val(r), String::new()));
+        if r.bool() {
+            ops.push((0, format!("/{}", r.pick(LITS)), String::new()));
+        }
+    }
+    for _ in 0..r.below(5) {
+        ops.push((2, r.pick(KEYS).to_string(), val(r)));
+    }
+    ops
+}
+
+fn client_shape(req: &Req) -> Option<Shape> {
+    let lit = |s: &str| Seg::Lit(s.to_string());
+    Some(match req {
+        Req::PathParams { s, i, rid } => Shape {
+            segs: vec![lit("sink"), lit("path"), Seg::Param(s.clone()), lit("lit"), Seg::Param(i.to_string()), Seg::Param(rid.as_str().to_string())],
+            query: vec![],
+        },
+        Req::PathMore { dbl, flag, when, uid, flavor, name, long } => Shape {
+            segs: vec![lit("sink"), lit("more"), Seg::Param(dbl.to_plain()), Seg::Param(flag.to_string()), Seg::Param(when.to_plain()), Seg::Param(uid.to_string()),
+                Seg::Param(flavor.to_string()), Seg::Param(name.0.clone()), Seg::Param(long.to_string())],
+            query: vec![],
+        },
+        Req::QueryParams { text, maybe_num, str_list, str_set, flag, dbl, uid, nums, flavors, alias_opt, alias_list, when } => {
+            let mut q = vec![("text".to_string(), text.clone())];
+            if let Some(n) = maybe_num {
+                q.push(("maybe-num".into(), n.to_string()));
+            }
+            q.extend(str_list.iter().map(|s| ("strList".to_string(), s.clone())));
+            q.extend(str_set.iter().map(|s| ("str_set".to_string(), s.clone())));
+            q.push(("flag".into(), flag.to_string()));
+            q.push(("dbl".into(), dbl.to_plain()));
+            if let Some(u) = uid {
+                q.push(("uid".into(), u.to_string()));
+            }
+            q.extend(nums.iter().map(|n| ("nums".to_string(), n.to_string())));
+            q.extend(flavors.iter().map(|f| ("flavors".to_string(), f.to_string())));
+            if let Some(n) = alias_opt.0 {
+                q.push(("aliasOpt".into(), n.to_string()));
+            }
+            q.extend(alias_list.0.iter().map(|s| ("aliasList".to_string(), s.clone())));
+            if let Some(w) = when {
+                q.push(("when".into(), w.to_plain()));
+            }
+            Shape { segs: vec![lit("sink"), lit("query")], query: q }
+        }
+        Req::SafeMix(m) => {
+            let mut q = vec![("legacySafeQuery".to_string(), m.legacy_safe_query.clone())];
+            if let Some(t) = &m.tagged_safe_query {
+                q.push(("taggedSafeQuery".into(), t.clone()));
+            }
+            q.push(("plainQuery".into(), m.plain_query.clone()));
+            q.push(("safeAliasQuery".into(), m.safe_alias_query.0.clone()));
+            q.push(("plainAliasQuery".into(), m.plain_alias_query.0.clone()));
+            q.push(("enumQuery".into(), m.enum_query.to_string()));
+            Shape {
+                segs: vec![lit("sink"), lit("mix"), Seg::Param(m.safe_path.clone()), Seg::Param(m.unsafe_path.clone()), Seg::Param(m.dnl_path.clone()), Seg::Param(m.type_.to_string())],
+                query: q,
+            }
+        }
+        Req::HeaderAuth { what, .. } => Shape { segs: vec![lit("sink"), lit("headerAuth"), Seg::Param(what.clone())], query: vec![] },
+        _ => return None,
+    })
+}
+
+fn hand_shape(req: &hand::HReq) -> Option<Shape> {
+    let lit = |s: &str| Seg::Lit(s.to_string());
+    Some(match req {
+        hand::HReq::Paths { p, q } => Shape { segs: vec![lit("hand"), lit("a b"), Seg::Param(p.clone()), lit("c%d"), Seg::Param(q.to_string())], query: vec![] },
+        hand::HReq::Query { a, list, c } => {
+            let mut q = vec![("k&1".to_string(), a.clone())];
+            q.extend(list.iter().map(|s| ("k=2".to_string(), s.clone())));
+            q.push(("ключ".into(), c.clone()));
+            Shape { segs: vec![lit("hand"), lit("query")], query: q }
+        }
+        hand::HReq::Body { id, .. } => Shape { segs: vec![lit("hand"), lit("body"), Seg::Param(id.clone())], query: vec![] },
+        _ => return None,
+    })
+}
+
+fn client_case(seed: u64, rep: &mut Report, flavour: &'static str) {
+    let mut r = Rng::new(seed);
+    let rec = Arc::new(Recorder::default());
+    let (uri, shape, endpoint) = if flavour.ends_with("macro") {
+        let req = loop {
+            let q = hand::HReq::gen(&mut r);
+            if hand_shape(&q).is_some() {
+                break q;
+            }
+        };
+        let shape = hand_shape(&req).unwrap();
+        let h = hand::HandHandler { rec };
+        let uri = if flavour.starts_with("blocking") {
+            let lb = Loopback::new(hand::sync_endpoints(h), r.u64());
+            let c = hand::HandApiClient::new(&lb);
+            let _ = guarded(|| hand::invoke_sync(&c, &req));
+            lb.last().uri
+        } else {
+            let lb = AsyncLoopback::new(hand::async_endpoints(h), r.u64());
+            let c = hand::AsyncHandApiClient::new(&lb);
+            let _ = guarded(|| block_on(hand::invoke_async(&c, &req)));
+            lb.last().uri
+        };
+        (uri, shape, req.endpoint())
+    } else {
+        let req = loop {
+            let q = Req::gen(&mut r);
+            if client_shape(&q).is_some() {
+                break q;
+            }
+        };
+        let shape = client_shape(&req).unwrap();
+        let h = Handler { rec };
+        let uri = if flavour.starts_with("blocking") {
+            let lb = Loopback::new(sync_endpoints(h), r.u64());
+            let c = SinkServiceClient::new(&lb);
+            let _ = guarded(|| invoke_sync(&c, &req));
+            lb.last().uri
+        } else {
+            let lb = AsyncLoopback::new(async_endpoints(h), r.u64());
+            let c = SinkServiceAsyncClient::new(&lb);
+            let _ = guarded(|| block_on(invoke_async(&c, &req)));
+            lb.last().uri
+        };
+        (uri, shape, req.endpoint())
+    };
+    if uri.is_empty() {
+        // the client refused before sending (e.g. unrepresentable header): nothing to observe
+        rep.cell(&format!("{}/not-sent", flavour));
+        return;
+    }
+    let classes: Vec<String> = shape.segs.iter().filter_map(|s| if let Seg::Param(v) = s { Some(char_class(v)) } else { None }).chain(shape.query.iter().map(|(_, v)| char_class(v))).collect();
+    rep.evaluations += 1;
+    rep.cell(&format!("{}/{}", flavour, endpoint));
+    rep.distinct.insert(fnv(&format!("{}|{}|{}", flavour, endpoint, classes.join(","))));
+    rep.sample(6, || json!({"sub": flavour, "case_seed": seed, "endpoint": endpoint, "uri": uri}));
+    if let Err((what, info)) = check_shape(&uri, &shape) {
+        rep.violation(flavour, seed, format!("client:{}:{}", endpoint, what), json!({"flavour": flavour, "endpoint": endpoint, "uri": uri, "what": what, "info": info}));
+    }
+}
+
+pub fn run(ctx: &Ctx, report: &mut Report) {
+    // exhaustive: every ASCII byte alone, in every parameter position of a fixed template
+    ctx.fixed(report, "ascii-exhaustive", |rep| {
+        for b in 0u8..128 {
+            let v = (b as char).to_string();
+            for pos in 0..4 {
+                let mut ops = vec![(0u8, "/api/v1".to_string(), String::new())];
+                ops.push((1, if pos == 0 { v.clone() } else { "x".into() }, String::new()));
+                ops.push((0, "/lit".into(), String::new()));
+                ops.push((1, if pos == 1 { v.clone() } else { "y".into() }, String::new()));
+                ops.push((2, "a".into(), if pos == 2 { v.clone() } else { "1".into() }));
+                ops.push((2, "key".into(), if pos == 3 { v.clone() } else { "2".into() }));
+                judge_built(rep, "ascii-exhaustive", (b as u64) * 4 + pos, &ops, &format!("byte{}@{}", b, pos));
+            }
+        }
+        rep.cell_n("exhaustive/ascii-bytes-x-positions", 128 * 4);
+    });
+    // all ordered pairs of reserved characters, in a path and in a query position
+    ctx.fixed(report, "reserved-pairs", |rep| {
+        let mut n = 0;
+        for (i, a) in RESERVED.iter().enumerate() {
+            for (k, b) in RESERVED.iter().enumerate() {
+                let v: String = [*a, *b].iter().collect();
+                let ops = vec![(0u8, "/api".to_string(), String::new()), (1, v.clone(), String::new()), (1, format!("x{}", v), String::new()), (2, "key".into(), v.clone()), (2, "key".into(), format!("{}x", v))];
+                judge_built(rep, "reserved-pairs", (i * 64 + k) as u64, &ops, &format!("pair{}:{}", i, k));
+                n += 1;
+            }
+        }
+        rep.cell_n("exhaustive/reserved-pairs", n);
+    });
+    ctx.cases(report, "builder", ctx.n(60_000, 4_000_000), |seed, rep| {
+        let mut r = Rng::new(seed);
+        let ops = random_ops(&mut r, &mut |r| match r.below(12) {
+            0 => "..".into(),
+            1 => ".".into(),
+            2 => format!("%{:02X}", r.below(256)),
+            3 => r.pick(RESERVED).to_string().repeat(1 + r.below(3)),
+            _ => hostile_string(r, 14),
+        });
+        rep.sample(2, || json!({"sub": "builder", "case_seed": seed, "ops": ops}));
+        judge_built(rep, "builder", seed, &ops, "rand");
+    });
+    // lengths: clearly under the http::Uri limit (must work) and clearly over (known finding)
+    ctx.cases(report, "builder-long", ctx.n(60, 600), |seed, rep| {
+        let mut r = Rng::new(seed);
+        let over = r.chance(1, 4);
+        let n = if over { 70_000 + r.below(30_000) } else { 1_000 + r.below(5_000) };
+        let ch = *r.pick(&['x', '%', 'é', '/', ' ']);
+        let long: String = std::iter::repeat(ch).take(n / ch.len_utf8()).collect();
+        let ops = if r.bool() {
+            vec![(0u8, "/api".to_string(), String::new()), (1, long, String::new())]
+        } else {
+            vec![(0u8, "/api".to_string(), String::new()), (2, "key".to_string(), long)]
+        };
+        judge_built(rep, "builder-long", seed, &ops, if over { "over-limit" } else { "long" });
+    });
+    // pinned witness of the known finding (DESIGN §6 C07)
+    ctx.fixed(report, "pinned-too-long", |rep| {
+        let ops = vec![(0u8, "/api".to_string(), String::new()), (1u8, "x".repeat(70_000), String::new())];
+        let before = rep.violations.len();
+        judge_built(rep, "pinned-too-long", 0, &ops, "pinned");
+        if rep.violations.len() > before && rep.violations.last().map(|v| v.sig.as_str()) == Some(KNOWN_TOO_LONG) {
+            rep.pinned.insert("C07-uri-too-long-panic".into(), KNOWN_TOO_LONG.into());
+        }
+    });
+    let n = ctx.n(8_000, 400_000);
+    ctx.cases(report, "blocking/generated", n, |s, rep| client_case(s, rep, "blocking/generated"));
+    ctx.cases(report, "async/generated", n, |s, rep| client_case(s, rep, "async/generated"));
+    ctx.cases(report, "blocking/macro", n, |s, rep| client_case(s, rep, "blocking/macro"));
+    ctx.cases(report, "async/macro", n, |s, rep| client_case(s, rep, "async/macro"));
+    if ctx.replay.is_none() {
+        report.floor_cells("client-endpoints", "blocking/", 8);
+        report.floor_cells("async-client-endpoints", "async/", 8);
+        let d = report.distinct.len() as u64;
+        report.floor("distinct-value-classes", 600, d);
+    }
+    report.notes.push("exhaustive parts: every ASCII byte alone in each of 4 parameter positions; all ordered pairs of the reserved set in path and query positions".into());
+    report.notes.push("distinct = (sub-monitor/endpoint, per-position value character classes)".into());
 }
